@@ -43,7 +43,11 @@ func (x *World) position(q *ecs.Query) map[string]interface{} {
 	m := q.Mask()
 	comps := x.maskIDs(&m)
 	alt := []interface{}{}
-	ids := idsToInts(q.Ids())
+	rawIds := q.Ids()
+	ids := idsToInts(rawIds)
+	for i := range rawIds {
+		rawIds[i] = rawIds[0] // the caller's own copy (see observeEntity)
+	}
 	if !sameInts(ids, comps) {
 		alt = append(alt, map[string]interface{}{"view": "Ids", "ids": ids})
 	}
